@@ -152,4 +152,61 @@ def run(ctx, rep):
                f"SymbolDb::add_inputs (which fills name_to_id) dominates the call in {stable(cb.key)}", cb.file, ct["l"])
         rep.ob("applied-once", "before-resolution", bool(ress) and all(ccfg.dominates(cbi, r) for r in ress),
                "the overrides are in place before references are resolved by name", cb.file, ct["l"])
+    _bucket_selection(ctx, rep)
     rep.assume("references inside the defining object bind by symbol index, not by name lookup (design note in the function's doc comment); program behaviour is not decided")
+
+
+def _bucket_selection(ctx, rep):
+    """SymbolDb shards its name -> id table into buckets; a name lives in bucket hash(name) % buckets.len(). Every site that picks a bucket - the loader's
+    per-bucket pending lists, add_synthetic_symbol, the lookups (get / get_unversioned) and override_name, through which --wrap installs S -> __wrap_S and
+    __real_S -> S - must use the same selection, otherwise an override is stored where no lookup looks (sibling agreement, checked structurally)."""
+    from mir import callee_key, place_chain, expr_tree, simplify
+    F, P = ctx.facts(), ctx.program()
+    rep.rule("bucket-selection", "every index into SymbolDb::buckets / pending_symbols_by_bucket in symbol_db.rs is Rem(<name>.hash(), <the same vector>.len()): writers "
+             "(override_name, add_synthetic_symbol, the loader) and readers (get, get_unversioned) agree on where a name lives")
+    n = 0
+    shapes = {}
+    for b in F.all_bodies:
+        if not b.key.startswith(("libwild::symbol_db::", "<libwild::symbol_db::")):
+            continue
+        fl = P.flow(b)
+        for bi, t in fl.calls():
+            ck = callee_key(t["f"]) or ""
+            if not (ck.endswith("::index") or ck.endswith("::index_mut")) or len(t["args"]) < 2:
+                continue
+            fields = place_chain(fl, t["args"][0])[0]
+            which = next((f for f in ("buckets", "pending_symbols_by_bucket") if f in fields), None)
+            if which is None:
+                continue
+            tr = simplify(expr_tree(P, b, t["args"][1], depth=7, expand_params=0))
+
+            def has_call(x, name):
+                if isinstance(x, tuple):
+                    if x and x[0] == "call" and str(x[1]).split("::")[-1] == name:
+                        return True
+                    return any(has_call(y, name) for y in x if isinstance(y, (tuple, list)))
+                if isinstance(x, list):
+                    return any(has_call(y, name) for y in x)
+                return False
+            if not has_call(tr, "hash"):
+                continue        # positional access (a loop over all buckets), not a selection by name
+            n += 1
+            ok = False
+            shape = tr[0]
+            if tr[0] == "bin":
+                shape = tr[1]
+                lhs, rhs = tr[2], tr[3]
+                ok = tr[1] == "Rem" and has_call(lhs, "hash") and has_call(rhs, "len")
+            shapes.setdefault(shape, []).append((b, t["l"], which, ok))
+    rep.floor("bucket-selection", "bucket index sites in symbol_db.rs", n, 6)
+    # sibling agreement: the shape used by the majority of the sites is the reference (today: Rem(hash, len))
+    ref = max(shapes, key=lambda k: len(shapes[k])) if shapes else None
+    k = 0
+    for shape, sites in sorted(shapes.items(), key=lambda kv: str(kv[0])):
+        for b, line, which, is_rem in sites:
+            k += 1
+            ok = shape == ref
+            rep.ob("bucket-selection", f"{b.key.split('::')[-1]}:{which}#{k}", ok,
+                   f"bucket = hash {shape} len, as at the other {len(shapes[ref]) - 1} site(s)" if ok else
+                   f"bucket chosen with `{shape}` here, while {len(shapes[ref])} other site(s) use `{ref}`: names stored through this site are looked up in a different bucket "
+                   "whenever the two expressions disagree (e.g. a mask vs a modulus with a bucket count that is not a power of two)", b.file, line)
